@@ -542,6 +542,9 @@ func getImports(t *Type) []string {
 // LowercaseFirstLetter of the string.
 func LowercaseFirstLetter(s string) string {
 	runes := []rune(s)
+	if len(runes) == 0 {
+		return s
+	}
 	runes[0] = unicode.ToLower(runes[0])
 	return string(runes)
 }
